@@ -1,7 +1,8 @@
 """Check configuration for C04 (loaded by bin/props.py)."""
-from props_common import STD_ASSUME
+from props_common import STD_ASSUME, KNOBS_ENGINES, KNOBS_ASSUME
 
 CFG = {
+    "knobs": KNOBS_ENGINES,
     "pkg": "banyand/internal/verif/props/c04",
     "level": "exploration",
     "fs_shim": True,
@@ -19,6 +20,6 @@ CFG = {
         "real": ["pkg/fs localFileSystem (CreateFile/Write/WriteAtomic/SyncPath/Close fsync discipline) compiled against the shim", "banyand/measure tsTable start-up (snapshot manifest load, part validation, leftover cleanup), flusher, merger, gc", "banyand/internal/storage segment open/metadata", "liaison front-end + query path used to read back"],
         "stub": ["syscalls below pkg/fs: real files on tmpfs + journal (simos/simunix)", "crash = journal prefix materialised into a fresh directory", "series index durability (bluge files carried as-is)", "metadata registry, clock"],
     },
-    "assumptions": STD_ASSUME + ["power-loss model: ordered metadata (namespace operations durable up to the last fsync of any kind, later ones survive as a prefix of their order); file data durable up to the file's own last fsync",
+    "assumptions": STD_ASSUME + [KNOBS_ASSUME, "power-loss model: ordered metadata (namespace operations durable up to the last fsync of any kind, later ones survive as a prefix of their order); file data durable up to the file's own last fsync",
                                 "'flushed' means acknowledged at least two flush periods before a quiescent point"],
 }
